@@ -131,6 +131,11 @@ pub enum Start<O> {
     /// pre-manifest layout (no manifest, un-suffixed generation-0 objects),
     /// and start from `load` of that.
     Legacy(Vec<HOp<O>>),
+    /// fresh index + creation flush, then the given ops (mutations, compact,
+    /// flush, flush+load) are executed without being enumerated or checked
+    /// beyond their return values: a start state that already has several
+    /// non-trivial buckets / a compacted and flushed layout.
+    Prelude(Vec<HOp<O>>),
 }
 
 pub struct FlushOut {
@@ -198,6 +203,17 @@ pub trait Sut: 'static {
     fn to_legacy(_cfg: &Self::Cfg, _store: &Store) -> Option<Store> {
         None
     }
+    /// `true` for the failure class of a RECORDED finding whose effect on the
+    /// observable answers is exactly describable (see `set_lenient`). A
+    /// history failing with it is then re-evaluated against the adjusted
+    /// reference and, when that agrees, kept in the search, so that the states
+    /// behind a recorded finding are explored too.
+    fn lenient_for(_kind: &str) -> bool {
+        false
+    }
+    /// Switches the model to the reference that includes the recorded
+    /// finding's effect (and nothing else).
+    fn set_lenient(_model: &mut Self::Model) {}
 }
 
 pub struct Live<S: Sut> {
@@ -263,13 +279,17 @@ fn do_flush<S: Sut>(live: &mut Live<S>, fail_at: Option<usize>) -> Result<FlushR
     }
 }
 
-pub fn start_live<S: Sut>(cfg: &S::Cfg, start: &Start<S::Op>) -> Result<Live<S>, Fail> {
+pub fn start_live<S: Sut>(cfg: &S::Cfg, start: &Start<S::Op>, lenient: bool) -> Result<Live<S>, Fail> {
     let idx = S::new_index(cfg);
+    let mut model = S::Model::default();
+    if lenient {
+        S::set_lenient(&mut model);
+    }
     let mut live = Live::<S> {
         idx,
         store: Store::new(),
-        model: S::Model::default(),
-        committed: S::Model::default(),
+        committed: model.clone(),
+        model,
         now: 1000,
     };
     // creation flush: writes the metadata object of the empty index
@@ -288,6 +308,11 @@ pub fn start_live<S: Sut>(cfg: &S::Cfg, start: &Start<S::Op>) -> Result<Live<S>,
         })?;
         S::on_load(&mut live.model);
         live.committed = live.model.clone();
+    }
+    if let Start::Prelude(ops) = start {
+        for op in ops {
+            step(&mut live, cfg, op).map_err(|f| f.prefixed("prelude:"))?;
+        }
     }
     Ok(live)
 }
@@ -387,6 +412,9 @@ pub struct Cand {
     pub journal: Vec<String>,
     pub crash: CrashTally,
     pub execs: u64,
+    /// set when the strict evaluation failed with a `lenient_for` class: the
+    /// same history evaluated against the adjusted reference
+    pub retry: Option<Box<Cand>>,
 }
 
 fn two_hashes(s: &str) -> (u64, u64) {
@@ -415,6 +443,7 @@ pub fn eval_candidate<S: Sut>(
     start: &Start<S::Op>,
     hist: &[&HOp<S::Op>],
     mode: &Mode<S::Op>,
+    lenient: bool,
 ) -> Cand {
     let mut c = Cand {
         fail: None,
@@ -424,16 +453,17 @@ pub fn eval_candidate<S: Sut>(
         journal: vec![],
         crash: CrashTally::default(),
         execs: 1,
+        retry: None,
     };
-    match eval_inner::<S>(cfg, start, hist, mode, &mut c) {
+    match eval_inner::<S>(cfg, start, hist, mode, lenient, &mut c) {
         Ok(()) => {}
         Err(f) => c.fail = Some(f),
     }
     c
 }
 
-fn run_ops<S: Sut>(cfg: &S::Cfg, start: &Start<S::Op>, hist: &[&HOp<S::Op>]) -> Result<Live<S>, Fail> {
-    let mut live = start_live::<S>(cfg, start)?;
+fn run_ops<S: Sut>(cfg: &S::Cfg, start: &Start<S::Op>, hist: &[&HOp<S::Op>], lenient: bool) -> Result<Live<S>, Fail> {
+    let mut live = start_live::<S>(cfg, start, lenient)?;
     for op in hist {
         step(&mut live, cfg, op)?;
     }
@@ -455,11 +485,12 @@ fn eval_inner<S: Sut>(
     start: &Start<S::Op>,
     hist: &[&HOp<S::Op>],
     mode: &Mode<S::Op>,
+    lenient: bool,
     c: &mut Cand,
 ) -> Result<(), Fail> {
     let n = hist.len();
     let mut t = Instant::now();
-    let mut live = start_live::<S>(cfg, start)?;
+    let mut live = start_live::<S>(cfg, start, lenient)?;
     for (i, op) in hist.iter().enumerate() {
         if i + 1 < n {
             step(&mut live, cfg, op).map_err(|f| f.prefixed("replayed-prefix:"))?;
@@ -512,7 +543,7 @@ fn eval_inner<S: Sut>(
     prof(4, &mut t);
 
     if let Mode::Crash(opts) = mode {
-        crash_enumerate::<S>(cfg, start, hist, opts, &rec, &committed_before, &live.model, c)?;
+        crash_enumerate::<S>(cfg, start, hist, lenient, opts, &rec, &committed_before, &live.model, c)?;
         prof(5, &mut t);
     }
     Ok(())
@@ -529,6 +560,7 @@ fn crash_enumerate<S: Sut>(
     cfg: &S::Cfg,
     start: &Start<S::Op>,
     hist: &[&HOp<S::Op>],
+    lenient: bool,
     opts: &CrashOpts<S::Op>,
     rec: &FlushRec,
     old: &S::Model,
@@ -673,7 +705,7 @@ fn crash_enumerate<S: Sut>(
         for k in 0..rec.n_puts {
             c.crash.err_prefixes += 1;
             c.execs += 1;
-            let mut live = run_ops::<S>(cfg, start, hist).map_err(|f| f.prefixed("replayed-prefix:"))?;
+            let mut live = run_ops::<S>(cfg, start, hist, lenient).map_err(|f| f.prefixed("replayed-prefix:"))?;
             let class = if k + 1 == rec.n_puts && rec.committed {
                 "commit-write"
             } else {
@@ -739,7 +771,7 @@ fn crash_enumerate<S: Sut>(
             for op in &opts.midflush {
                 c.crash.midflush += 1;
                 c.execs += 1;
-                midflush_one::<S>(cfg, start, hist, k, k + 1 == rec.n_puts && rec.committed, op, c)?;
+                midflush_one::<S>(cfg, start, hist, lenient, k, k + 1 == rec.n_puts && rec.committed, op, c)?;
             }
         }
     }
@@ -755,12 +787,13 @@ fn midflush_one<S: Sut>(
     cfg: &S::Cfg,
     start: &Start<S::Op>,
     hist: &[&HOp<S::Op>],
+    lenient: bool,
     k: usize,
     at_commit: bool,
     op: &S::Op,
     c: &mut Cand,
 ) -> Result<(), Fail> {
-    let mut live = run_ops::<S>(cfg, start, hist).map_err(|f| f.prefixed("replayed-prefix:"))?;
+    let mut live = run_ops::<S>(cfg, start, hist, lenient).map_err(|f| f.prefixed("replayed-prefix:"))?;
     let pos = if at_commit { "before-commit-write" } else { "before-bucket-write" };
     let tag = format!("midflush:{pos}:{}:", S::op_kind(op));
     let pre_model = live.model.clone();
